@@ -111,6 +111,124 @@ void injectQuota(uint64_t where, GtModel &gt, Op op, unsigned form, size_t k)
     ++gt.equationCount;
 }
 
+// Further NLA systems (the ground-truth generator makes at most one): system s has n unknowns nv<s>_<j> with known values and
+// n equations sum_j coef_ij*u_j + sin(u_j) = <the same expression over the values>, which read nothing but literals. A lone
+// unknown carries no initial value (the analyser then takes the equation for an NLA equation of that unknown), several
+// unknowns carry an initial guess each (the analyser's convention for coupled unknowns). All systems go into one component,
+// whose equations are then put in a tape-chosen order - either a permutation of everything or an explicit interleaving of
+// the systems' equations - and re-split into math blocks: AnalyserModel::equations() follows document order, so equations of
+// different NLA systems end up interleaved.
+struct Lcg
+{
+    uint64_t s;
+    uint64_t next(uint64_t n)
+    {
+        s = s * 6364136223846793005ULL + 1442695040888963407ULL;
+        return n <= 1 ? 0 : (s >> 33) % n;
+    }
+};
+
+void injectNlaSystems(GtModel &gt, size_t systems, uint64_t shape, uint64_t orderSeed, uint64_t layout)
+{
+    if (systems == 0 || gt.spec.comps.empty()) {
+        return;
+    }
+    auto n = [](double v) { return Expr::cn(v, "dimensionless", numText(v)); };
+    const size_t comp = shape % gt.spec.comps.size();
+    shape /= 8;
+    CompSpec &cs = gt.spec.comps[comp];
+    static const double values[] = {1.25, 0.75, 2.5, -0.5, 1.5, 0.3};
+    std::vector<std::vector<std::pair<Expr, Expr>>> added;
+    for (size_t s = 0; s < systems; ++s) {
+        const size_t size = 1 + shape % 3;
+        shape /= 3;
+        GtNlaSystem sys;
+        sys.comp = static_cast<int>(comp);
+        std::vector<std::string> names;
+        for (size_t j = 0; j < size; ++j) {
+            VarSpec vs;
+            vs.name = "nv" + std::to_string(s) + "_" + std::to_string(j);
+            vs.units = "dimensionless";
+            if (size > 1) {
+                vs.initial = (j % 2 == 0) ? "1" : "0.5";
+            }
+            cs.vars.push_back(vs);
+            GtClass cl;
+            cl.role = GtRole::NLA;
+            GtInstance in;
+            in.comp = static_cast<int>(comp);
+            in.var = static_cast<int>(cs.vars.size()) - 1;
+            in.units = "dimensionless";
+            cl.inst.push_back(in);
+            cl.value[0] = cl.value[1] = values[(s * 3 + j) % 6];
+            cl.rhs = n(cl.value[0]);
+            cl.nlaSystem = static_cast<int>(gt.nla.size());
+            gt.classes.push_back(cl);
+            sys.unknowns.push_back(static_cast<int>(gt.classes.size()) - 1);
+            names.push_back(vs.name);
+        }
+        for (size_t i = 0; i < size; ++i) {
+            std::vector<Expr> lhs, rhs;
+            for (size_t j = 0; j < size; ++j) {
+                double coef = 2 + static_cast<double>((i * 3 + j * 5 + s) % 7);
+                double v = values[(s * 3 + j) % 6];
+                lhs.push_back(Expr::make(Op::PLUS, {Expr::make(Op::TIMES, {n(coef), Expr::ci(names[j])}), Expr::make(Op::SIN, {Expr::ci(names[j])})}));
+                rhs.push_back(Expr::make(Op::PLUS, {Expr::make(Op::TIMES, {n(coef), n(v)}), Expr::make(Op::SIN, {n(v)})}));
+            }
+            Expr F = lhs.size() == 1 ? Expr::make(Op::PLUS, {lhs[0], n(1)}) : Expr::make(Op::PLUS, lhs);
+            Expr R = rhs.size() == 1 ? Expr::make(Op::PLUS, {rhs[0], n(1)}) : Expr::make(Op::PLUS, rhs);
+            sys.equations.emplace_back(F, R);
+        }
+        added.push_back(sys.equations);
+        gt.nla.push_back(sys);
+        gt.equationCount += size;
+    }
+    // ---- order of the component's equations
+    Lcg rng {orderSeed * 2 + 1};
+    std::vector<std::pair<Expr, Expr>> eqs;
+    if (layout % 2 == 0) {
+        // explicit interleaving: round-robin over the new systems, the component's own equations spread in between
+        std::vector<std::vector<std::pair<Expr, Expr>>> queues = added;
+        queues.push_back(cs.equations);
+        size_t left = 0;
+        for (const auto &q : queues) {
+            left += q.size();
+        }
+        std::vector<size_t> pos(queues.size(), 0);
+        size_t start = rng.next(queues.size());
+        for (size_t k = start; left > 0; ++k) {
+            size_t q = k % queues.size();
+            if (pos[q] < queues[q].size()) {
+                eqs.push_back(queues[q][pos[q]++]);
+                --left;
+            }
+        }
+    } else {
+        eqs = cs.equations;
+        for (const auto &a : added) {
+            eqs.insert(eqs.end(), a.begin(), a.end());
+        }
+        for (size_t i = eqs.size(); i > 1; --i) {
+            std::swap(eqs[i - 1], eqs[rng.next(i)]);
+        }
+    }
+    for (auto &e : eqs) {
+        if (rng.next(4) == 0) {
+            std::swap(e.first, e.second);
+        }
+    }
+    cs.equations = eqs;
+    cs.math.clear();
+    size_t split = ((layout / 2) % 2 == 1 && eqs.size() > 1) ? 1 + rng.next(eqs.size() - 1) : eqs.size();
+    std::vector<std::pair<Expr, Expr>> first(eqs.begin(), eqs.begin() + static_cast<long>(split)), second(eqs.begin() + static_cast<long>(split), eqs.end());
+    cs.math.push_back(mathBlock(first, static_cast<int>((layout / 4) % 3)));
+    if (!second.empty()) {
+        cs.math.push_back(mathBlock(second, static_cast<int>((layout / 12) % 3)));
+    }
+    bool ode = gt.voi >= 0;
+    gt.expectedType = ode ? "dae" : "nla";
+}
+
 // ---------------------------------------------------------------------------------------------- expectations
 
 const char *typeName(AnalyserVariable::Type t)
@@ -159,6 +277,8 @@ struct Expectation
     bool ode = false, ext = false, nla = false;
     std::set<Op> opsStrict; // operators of the equations the generated code still contains
     std::set<Op> opsLoose; // operators of every equation of the model (before equations of external variables were dropped)
+    std::map<size_t, size_t> nlaEquations; // AnalyserEquation::nlaSystemIndex() -> number of NLA equations carrying it
+    std::map<size_t, size_t> nlaUnknowns; // ... -> number of unknowns of the system
 };
 
 // Compares one info entry; returns the failing field ("" = equal)
@@ -312,6 +432,72 @@ void checkFunctions(Case &c, const std::string &profile, const Expectation &x, c
             VP_CHECK(c, nlaFn, "C17.function|unexpected|" + profile, "the implementation defines " << d.first << ", which is neither part of the interface, nor an NLA function of a model with NLA systems, nor a helper\n--- implementation ---\n" << text.substr(0, 8000));
         }
     }
+    // one objective function / root finder per NLA system index the AnalyserModel reports - no more, no fewer - with one
+    // f[] entry per NLA equation of that system and room for each of its unknowns
+    {
+        const std::string objP = isC ? "objectiveFunction" : "objective_function_", rootP = isC ? "findRoot" : "find_root_";
+        std::set<std::string> wantNla, gotNla;
+        for (const auto &k : x.nlaEquations) {
+            wantNla.insert(objP + std::to_string(k.first));
+            wantNla.insert(rootP + std::to_string(k.first));
+        }
+        for (const auto &d : defCount) {
+            if (d.first.rfind(objP, 0) == 0 || d.first.rfind(rootP, 0) == 0) {
+                gotNla.insert(d.first);
+            }
+        }
+        ++*comparisons;
+        VP_CHECK(c, wantNla == gotNla, "C17.nla|functions-vs-systems|" + profile, "the AnalyserModel reports NLA system indices that call for " << showSet(wantNla) << ", the implementation defines " << showSet(gotNla) << "\n--- implementation ---\n" << text.substr(0, 8000));
+        std::vector<std::string> ls;
+        {
+            std::istringstream in(text);
+            std::string l;
+            while (std::getline(in, l)) {
+                ls.push_back(l);
+            }
+        }
+        auto bodyOf = [&](const std::string &name) {
+            std::vector<std::string> body;
+            for (const auto &d : defs) {
+                if (d.name != name) {
+                    continue;
+                }
+                for (size_t i = 0; i < ls.size(); ++i) {
+                    if (ls[i] != d.line) {
+                        continue;
+                    }
+                    for (size_t k = i + 1; k < ls.size(); ++k) {
+                        if (!ls[k].empty() && ls[k][0] != ' ' && ls[k] != "{") {
+                            break; // C: the closing brace; Python: the next top-level statement
+                        }
+                        body.push_back(ls[k]);
+                    }
+                    return body;
+                }
+            }
+            return body;
+        };
+        for (const auto &k : x.nlaEquations) {
+            const std::string idx = std::to_string(k.first);
+            size_t fLines = 0;
+            for (const auto &l : bodyOf(objP + idx)) {
+                if (l.rfind("    f[", 0) == 0) {
+                    ++fLines;
+                }
+            }
+            *comparisons += 2;
+            VP_CHECK(c, fLines == k.second, "C17.nla|objective-size|" + profile, objP << idx << " assigns " << fLines << " entries of f, NLA system " << idx << " has " << k.second << " equations\n--- implementation ---\n" << text.substr(0, 8000));
+            const size_t unknowns = x.nlaUnknowns.at(k.first);
+            const std::string call = objP + idx + ", u, " + std::to_string(unknowns) + ",";
+            const std::string decl = isC ? "double u[" + std::to_string(unknowns) + "];" : "u = [nan]*" + std::to_string(unknowns);
+            bool hasCall = false, hasDecl = false;
+            for (const auto &l : bodyOf(rootP + idx)) {
+                hasCall = hasCall || l.find(call) != std::string::npos;
+                hasDecl = hasDecl || l.find(decl) != std::string::npos;
+            }
+            VP_CHECK(c, hasCall && hasDecl, "C17.nla|root-finder-size|" + profile, rootP << idx << " does not hand " << objP << idx << " and " << unknowns << " unknowns to the solver\n--- implementation ---\n" << text.substr(0, 8000));
+        }
+    }
     for (const auto &s : structural) {
         ++*comparisons;
         VP_CHECK(c, defCount.count(s) != 0, "C17.function|missing|" + profile + "|" + s, "the implementation does not define " << s << "\n--- implementation ---\n" << text.substr(0, 8000));
@@ -429,6 +615,10 @@ void run(Src &src, Case &c)
     for (size_t i = 0; i < quotaOps.size(); ++i) {
         injectQuota(quotaOps[i].second / 8, gt, quotaOps[i].first, quotaOps[i].second % 8, i);
     }
+    // further NLA systems, interleaved with each other and with the component's equations (valid-model cases only: rnd[0..3]
+    // are otherwise used by the non-valid variants): 0..3 none, 4..5 one, 6..7 two
+    const size_t extraNla = kind < 7 ? (rnd[0] % 8 < 4 ? 0 : (rnd[0] % 8 < 6 ? 1 : 2)) : 0;
+    injectNlaSystems(gt, extraNla, rnd[1], rnd[2], rnd[3]);
     for (const auto &k : gt.counters) {
         c.count("gen:" + k.first, k.second);
     }
@@ -508,7 +698,7 @@ void run(Src &src, Case &c)
     }
 
     Built b = buildApi(gt.spec);
-    c.text = "kind=" + std::to_string(kind) + " mutation=" + (mutation.empty() ? "none" : mutation) + " pool=" + std::to_string(poolMode) + " quota=" + std::to_string(quota) + "\n" + specToText(gt.spec) + "\n" + gt.describe();
+    c.text = "kind=" + std::to_string(kind) + " mutation=" + (mutation.empty() ? "none" : mutation) + " pool=" + std::to_string(poolMode) + " quota=" + std::to_string(quota) + " extra-nla=" + std::to_string(extraNla) + "\n" + specToText(gt.spec) + "\n" + gt.describe();
     c.weight = c.text.size();
 
     if (mutation == "null-model" || mutation == "fresh-analyser-model" || mutation == "empty-model") {
@@ -582,6 +772,19 @@ void run(Src &src, Case &c)
             extClasses.insert(ci.first);
             extText += " " + gt.spec.comps[static_cast<size_t>(in.comp)].name + "." + v->name() + "(" + gtRoleName(cl.role) + ")";
             c.cls(std::string("external-role:") + gtRoleName(cl.role));
+            if (cl.role == GtRole::NLA && cl.nlaSystem >= 0 && gt.nla[static_cast<size_t>(cl.nlaSystem)].unknowns.size() > 1) {
+                // one external unknown of a coupled system leaves more equations than unknowns (the library calls that
+                // overconstrained): mark the whole system external instead, which drops its equations
+                for (int u : gt.nla[static_cast<size_t>(cl.nlaSystem)].unknowns) {
+                    if (extClasses.insert(u).second) {
+                        const auto &ui = gt.classes[static_cast<size_t>(u)].inst[0];
+                        auto uv = b.vars[static_cast<size_t>(ui.comp)][static_cast<size_t>(ui.var)];
+                        analyser2->addExternalVariable(AnalyserExternalVariable::create(uv));
+                        extText += " " + gt.spec.comps[static_cast<size_t>(ui.comp)].name + "." + uv->name() + "(nla_unknown)";
+                    }
+                }
+                c.cls("external-whole-nla-system");
+            }
         }
         analyser2->analyseModel(b.model);
         analyser = analyser2;
@@ -598,7 +801,7 @@ void run(Src &src, Case &c)
     }
     c.hash = hashStr(c.text);
     c.cls("type:" + type);
-    c.cls("externals:" + std::to_string(extClasses.size()));
+    c.cls("externals:" + std::to_string(std::min<size_t>(extClasses.size(), 3)) + (extClasses.size() >= 3 ? "+" : ""));
 
     GtMapping map;
     if (!mapAnalyserModel(am, gt, map)) {
@@ -661,6 +864,32 @@ void run(Src &src, Case &c)
     c.cls(helperOps == 0 ? "helpers:0" : helperOps <= 2 ? "helpers:1-2" : helperOps <= 5 ? "helpers:3-5" : "helpers:6+");
     c.nontrivial = (am->stateCount() > 0 || x.nla || x.ext) && helperOps > 0;
     if (x.nla) c.cls("nla-system");
+    {
+        // NLA systems as the AnalyserModel reports them, in the order of AnalyserModel::equations()
+        std::vector<size_t> order;
+        for (const auto &e : am->equations()) {
+            if (e->type() == AnalyserEquation::Type::NLA) {
+                ++x.nlaEquations[e->nlaSystemIndex()];
+                x.nlaUnknowns[e->nlaSystemIndex()] = e->variableCount();
+                order.push_back(e->nlaSystemIndex());
+            }
+        }
+        VP_CHECK(c, x.nla == !x.nlaEquations.empty(), "C17.analyser|nla-type-vs-equations", "model type " << type << " with " << order.size() << " NLA equations");
+        bool multi = false, interleaved = false;
+        for (const auto &k : x.nlaEquations) {
+            multi = multi || k.second >= 2;
+        }
+        std::set<size_t> closed;
+        for (size_t i = 0; i < order.size(); ++i) {
+            if (i > 0 && order[i] != order[i - 1]) {
+                closed.insert(order[i - 1]);
+            }
+            interleaved = interleaved || closed.count(order[i]) != 0;
+        }
+        if (x.nlaEquations.size() >= 2) c.cls("nla-systems>=2");
+        if (multi) c.cls("nla-multi-equation-system");
+        if (interleaved) c.cls("nla-systems-interleaved");
+    }
     if (gt.spec.comps.size() > 1) c.cls("multi-component");
 
     RunPlan plan = makeRunPlan(gt, map);
@@ -809,10 +1038,11 @@ Property property = {
     "C17",
     "translation_validation",
     "rapidcheck tapes drive the ground-truth model generator of C03 (1-4 components, constants / computed constants / algebraic variables / states / NLA systems, expression trees over the MathML operator set) with a per-case operator pool "
-    "(no helper-requiring operator / a few / the trigonometric ones / all) plus 0-3 quota equations that each use one helper-requiring operator directly, in a taken or untaken piecewise branch, in a logbase or as an operand; 40 % of the "
+    "(no helper-requiring operator / a few / the trigonometric ones / all) plus 0-3 quota equations that each use one helper-requiring operator directly, in a taken or untaken piecewise branch, in a logbase or as an operand; half of the valid cases get 1-2 further NLA systems (1-3 unknowns, literal-only equations with a known solution) whose equations are interleaved with each other and "
+    "with the component's other equations in document order (round-robin or a tape-seeded permutation, re-split into math blocks); 40 % of the "
     "cases mark 1-2 states/variables external (sometimes through a non-primary equivalent variable); 30 % are made non-valid (equation dropped, duplicate definition, both, variable without units, initialised voi, empty model, null "
     "model, a new analyser's UNKNOWN model). Valid models: C code is compiled (-Wall -Wextra), linked with an address-taking probe and run, Python code is exec'd; counts, every info-table entry, buffer capacities, declared/defined "
-    "signatures, enumerators and the set of helper functions defined / called in the text are compared with the AnalyserModel and with the operators of the equations. Non-valid models: all four code strings are empty. "
+    "signatures, enumerators, the set of helper functions defined / called in the text and the objective function / root finder of every NLA system index (defined once, one f[] entry per equation, sized for its unknowns) are compared with the AnalyserModel and with the operators of the equations. Non-valid models: all four code strings are empty. "
     "Non-trivial: the model has a state, an NLA system or an external variable, and at least one helper-requiring operator. Distinct = hash of the model text and external-variable choice.",
     run,
     nullptr,
